@@ -92,8 +92,9 @@ def add_grid_to(chk, r, n, **kw):
 
 # ----------------------------------------------------------------------------- population optimizers, complete models
 
-POP_NAME = ("whole optimizer ParallelTempering / ParticleSwarm / SpiralOptimization (round-robin over complete members on ONE shared tape; "
-            "swap draws, linear / spiral move as oracle vector, outer constraint check, member fallback): GFO.Model.Population driven through the "
+POP_NAME = ("whole optimizer ParallelTempering / ParticleSwarm / SpiralOptimization / EvolutionStrategy / DifferentialEvolution / GeneticAlgorithm "
+            "(complete members on ONE shared tape; swap draws, linear / spiral / mutant vector as oracle, checked argsort permutation, integer draws, "
+            "recombination choices, outer constraint check, member repair): GFO.Model.Population / GFO.Model.Evolution driven through the "
             "driver model must emit the same positions, rows, trace, best result, the outer and every member's tracker and consume the tape exactly")
 
 
